@@ -10,7 +10,7 @@ RULE = ("arbitrary byte strings (uniform bytes; JSON-alphabet-biased bytes; muta
 ASSUMPTIONS = ["absence of invalid memory accesses in the compiled C is observed through ASan/UBSan on the sampled inputs only (supporting evidence, not a theorem)"]
 LEVEL_TEXT = ("Theorems (all bytes, flags, depth limits, histories): every call of the tokener model terminates with exactly one of the three outcomes, "
               "the end position is within the given length, the level stack never exceeds the limit, the redo loop never runs out of its fixed fuel from "
-              "well-formed states; reset_is_new: for all inputs and all prior states a reset parser gives the same value, status and end position as a new one (the fields reset leaves alone are proved dead).  Memory safety of the compiled code is a runtime fact: the model proves "
+              "well-formed states; reset_is_new: for all inputs and all prior states a reset parser gives the same value, status and end position as a new one (the fields reset leaves alone are proved dead); the entry size guard refuses len < -1 and NUL-terminated inputs of INT32_MAX bytes or more, and every accepted call ends at a position within 0..INT32_MAX, so the int character counter cannot overflow (C04_end_position_in_int; defect 5caf9e2 was the off-by-one in that guard).  Memory safety of the compiled code is a runtime fact: the model proves "
               "index discipline, ASan/UBSan runs of the differential correspondence are supporting evidence.")
 LEVEL_NOTE = "Partial: memory safety, leaks and reads-only-given-bytes are runtime facts observed under ASan on sampled inputs (the model proves index discipline and totality); tie to the C code by sampled differential execution."
 
@@ -30,21 +30,7 @@ INT32_MAX = 2147483647
 
 def big_ok():
     """can this machine hold a 2 GiB input buffer (+ ASan shadow)?"""
-    try:
-        import resource, mmap
-        if resource.getrlimit(resource.RLIMIT_AS)[0] != resource.RLIM_INFINITY:
-            return False
-        avail = 0
-        for l in open("/proc/meminfo"):
-            if l.startswith("MemAvailable:"):
-                avail = int(l.split()[1]) * 1024
-        if avail < (8 << 30):
-            return False
-        m = mmap.mmap(-1, 3 << 30, flags=mmap.MAP_PRIVATE | mmap.MAP_ANONYMOUS | getattr(mmap, "MAP_NORESERVE", 0))
-        m.close()
-        return True
-    except Exception:
-        return False
+    return mem_ok(3 << 30)
 
 
 def gen(rng, tier):
